@@ -417,3 +417,120 @@ func PropC08(c *vs.Case, f Factory, o RolloutOpts) error {
 	}
 	return nil
 }
+
+// PropC07CrossKind: the health gate is "every child already on the latest revision", whatever its kind, judged by
+// the status checks configured for ITS kind. Two rolling child kinds with different strategies: A carries status
+// checks and comes first in the hook's order, B has none (and its own rolling method). Once every A child has
+// moved and some B child has not, one A child turns unhealthy: the next sync may move nothing.
+func PropC07CrossKind(c *vs.Case, f Factory) error {
+	scn := NewRolloutScn(c, RolloutOpts{MaxChildren: 2, Small: true})
+	tr := "True"
+	aRes, bRes := "widgets", "gadgets"
+	if c.Bool() {
+		aRes, bRes = "gadgets", "widgets"
+	}
+	mkTpl := func(res string, n int, prefix string) ChildTpl {
+		t := ChildTpl{Resource: res, Labels: map[string]string{"app": "p1"},
+			Fields: map[string]any{"spec": map[string]any{"v": "$p:spec.template.v", "mode": "$p:spec.other"}}}
+		for i := 0; i < n; i++ {
+			t.Names = append(t.Names, fmt.Sprintf("%s%d", prefix, i))
+		}
+		return t
+	}
+	nA, nB := 1+c.Int(2), 1+c.Int(2)
+	a := ChildCfg{Resource: aRes, Method: c.PickStr("RollingInPlace", "RollingRecreate"), Checks: []CondCheck{{Type: "Ready", Status: &tr}}}
+	b := ChildCfg{Resource: bRes, Method: c.PickStr("RollingInPlace", "RollingRecreate")}
+	scn.Cfg.Children = []ChildCfg{a, b}
+	if c.Bool() {
+		scn.Cfg.Children = []ChildCfg{b, a} // the order of the rules in the controller spec carries no meaning
+	}
+	scn.Prog.Children = []ChildTpl{mkTpl(aRes, nA, "a"), mkTpl(bRes, nB, "b")}
+	env, err := NewEnv(scn, f)
+	if err != nil {
+		return fmt.Errorf("harness: %v", err)
+	}
+	var log []string
+	c.Describe(func() any { return map[string]any{"scenario": scn, "steps": log} })
+	fair := func() (*SyncTrace, error) {
+		env.MakeHealthy()
+		env.W.SyncAll()
+		t := env.Sync()
+		if t.Panic != "" {
+			return t, vs.Violf("C07/panic", "panic: %s", t.Panic)
+		}
+		if t.Err != nil {
+			return t, fmt.Errorf("harness: fair sync failed: %v", t.Err)
+		}
+		return t, nil
+	}
+	for i := 0; i < 3; i++ {
+		if _, err := fair(); err != nil {
+			return err
+		}
+	}
+	log = append(log, "edit "+env.editParent(1))
+	newV, _ := getPath(env.Parent(), "spec.template.v")
+	vOf := func(res, name string) string {
+		o := env.W.Sim.Get(res, "ns1", name)
+		if o == nil {
+			return ""
+		}
+		v, _ := getPath(o, "spec.v")
+		return fmt.Sprint(v)
+	}
+	reached := false
+	for i := 0; i < 2*nA+3 && !reached; i++ {
+		if _, err := fair(); err != nil {
+			return err
+		}
+		allA, someBOld, noBNew := true, false, true
+		for _, n := range scn.Prog.Children[0].Names {
+			if vOf(aRes, n) != fmt.Sprint(newV) {
+				allA = false
+			}
+		}
+		for _, n := range scn.Prog.Children[1].Names {
+			switch vOf(bRes, n) {
+			case fmt.Sprint(newV):
+				noBNew = false
+			case "":
+				noBNew = false // being recreated: not the state aimed at
+			default:
+				someBOld = true
+			}
+		}
+		reached = allA && someBOld && noBNew
+	}
+	if !reached {
+		c.Class("cross-kind-state-not-reached")
+		return nil
+	}
+	c.NonTrivial()
+	c.Class("cross-kind A=%s/%s B=%s/%s", aRes, a.Method, bRes, b.Method)
+	// one A child (on the latest revision) stops being Ready
+	env.MakeHealthy()
+	sick := scn.Prog.Children[0].Names[c.Int(nA)]
+	env.W.Sim.ExtUpdate(aRes, "ns1", sick, func(obj map[string]any) {
+		st, _ := obj["status"].(map[string]any)
+		if st == nil {
+			st = map[string]any{}
+			obj["status"] = st
+		}
+		st["conditions"] = []any{map[string]any{"type": "Ready", "status": "False", "reason": "Sick"}}
+	})
+	log = append(log, fmt.Sprintf("%s %s turns unhealthy (Ready=False) while on the latest revision", aRes, sick))
+	env.W.SyncAll()
+	t := env.Sync()
+	if t.Panic != "" {
+		return vs.Violf("C07/panic", "panic: %s", t.Panic)
+	}
+	for _, r := range t.Reqs {
+		if r.Mutating() && (r.Def.Resource == "widgets" || r.Def.Resource == "gadgets") {
+			return withTrace(vs.Violf("C07/moved-past-unhealthy-child-of-another-kind", "%s %s is on the latest revision and fails the status check configured for its kind, yet the sync issued %s (no child may move before every child on the latest revision is healthy)", aRes, sick, r.String()), t)
+		}
+	}
+	if cond := condOf(env.Parent(), "Updated"); cond == nil || cond["reason"] != "RolloutWaiting" {
+		return withTrace(vs.Violf("C07/updated-condition-wrong", "a child on the latest revision is unhealthy and children of another kind still wait to be moved, but the Updated condition is %v (want RolloutWaiting)", cond), t)
+	}
+	return nil
+}
